@@ -599,6 +599,13 @@ func (a *fnA) classifyCond(cond ssa.Value, truth bool, blk *ssa.BasicBlock) (str
 				v = x.Y
 			}
 			if isErrorType(v.Type()) {
+				// the error must come from the library's own readers (a module function
+				// or a Codec method): an error produced by a validation routine from
+				// elsewhere (strconv.ParseFloat, utf8.Valid ...) is a new way of turning
+				// away input and needs classification like any other test
+				if src := foreignErrorSource(v, 0); src != "" {
+					return "error of " + src, false
+				}
 				return "callee error", true
 			}
 			if _, isPtr := v.Type().Underlying().(*types.Pointer); isPtr {
@@ -821,12 +828,35 @@ func ruleInternKey(c *Ctx) {
 				if _, isMU := in.(*ssa.MapUpdate); isMU {
 					okK = isB && kb.Kind() == types.String
 				}
+				if mu, isMU := in.(*ssa.MapUpdate); isMU {
+					fromRange := func(v ssa.Value) bool {
+						ex, ok := v.(*ssa.Extract)
+						if !ok {
+							return false
+						}
+						_, isNext := ex.Tuple.(*ssa.Next)
+						return isNext
+					}
+					freshCopy := func(v ssa.Value) bool {
+						cv, ok := v.(*ssa.Convert)
+						if !ok {
+							return false
+						}
+						prm, isP := cv.X.(*ssa.Parameter)
+						return isP && isByteSlice(prm.Type())
+					}
+					if !fromRange(mu.Key) {
+						c.Oblige("T.intern-copy", freshCopy(mu.Key) && freshCopy(mu.Value), in.Pos(), fn, "a new table entry is string(data)",
+							"strings handed out by the table never change: the entry must be the immutable copy the conversion string(data) makes - bytes packed into a buffer the codec keeps (and may rewind, grow or re-use) are not", nil)
+					}
+				}
 				c.Oblige("T.intern-key", okT && okK, in.Pos(), fn, "intern table keyed by the string itself",
 					"an interned field must decode to exactly the strings it would produce without the option: the table must be a map[string]string looked up with string(data) - a hash or a prefix as key returns another string on a collision", nil)
 			}
 		}
 	}
 	c.Floor("T.intern-key", 3)
+	c.Floor("T.intern-copy", 1)
 }
 
 // ---------------------------------------------------------------------------
@@ -1045,4 +1075,42 @@ func ruleViaRegistry(c *Ctx) {
 		}
 	}
 	c.Floor("T.viaregistry", 5)
+}
+
+// foreignErrorSource: the error value is produced by a call of a function that
+// is neither in the module nor an interface method; returns its name.
+func foreignErrorSource(v ssa.Value, depth int) string {
+	if depth > 6 {
+		return ""
+	}
+	switch x := v.(type) {
+	case *ssa.Extract:
+		return foreignErrorSource(x.Tuple, depth+1)
+	case *ssa.Phi:
+		for _, e := range x.Edges {
+			if r := foreignErrorSource(e, depth+1); r != "" {
+				return r
+			}
+		}
+	case *ssa.Call:
+		if x.Common().IsInvoke() {
+			return ""
+		}
+		cal := x.Common().StaticCallee()
+		if cal == nil {
+			return ""
+		}
+		if o := origin(cal); o != nil && o.Pkg != nil && inModule(o.Pkg.Pkg) {
+			return ""
+		}
+		if obj := cal.Object(); obj != nil && inModule(obj.Pkg()) {
+			return ""
+		}
+		switch cal.String() {
+		case "fmt.Errorf", "errors.New":
+			return ""
+		}
+		return cal.String()
+	}
+	return ""
 }
